@@ -76,7 +76,7 @@ def atomName : Atom → String
   | .fieldData dt a => s!"fieldData.{dtName dt}.{accName a}"
   | .stencilSize => "stencilSize" | .stencilSize2d => "stencilSize2d" | .maxBranch => "maxBranch"
   | .direction => "direction" | .stencilMap => "stencilMap" | .stencilMap2d => "stencilMap2d"
-  | .opNcell3d => "opNcell3d" | .opData a => s!"opData.{accName a}"
+  | .opNcell3d => "opNcell3d" | .opData a => s!"opData.{accName a}" | .opProxy => "opProxy"
   | .cmaMatrix a => s!"cmaMatrix.{accName a}" | .cmaParam p => s!"cmaParam.{parName p}"
   | .scalar dt a => s!"scalar.{dtName dt}.{accName a}"
   | .ndf => "ndf" | .undf => "undf" | .dofmap => "dofmap" | .dofmapWhole => "dofmapWhole"
@@ -105,6 +105,10 @@ def stubRefusalName : Option StubRefusal → String
   | none => "" | some .notCellColumn => "notCellColumn" | some .intergrid => "intergrid"
   | some .basisOnAnySpace => "basisOnAnySpace" | some (.generate r) => refusalName (some r)
 
+def secName : DocSection → String
+  | .general => "general" | .cmaAssembly => "cmaAssembly" | .cmaApply => "cmaApply"
+  | .cmaMatrixMatrix => "cmaMatrixMatrix" | .interGrid => "interGrid" | .domain => "domain"
+
 def handle (s : Sexp) : String :=
   match mdOf s with
   | none => "bad-metadata"
@@ -112,10 +116,11 @@ def handle (s : Sexp) : String :=
     let callS (xs : List Atom) := ",".intercalate (xs.map fun a => s!"{atomName a}:{sigName (Gen.callSig a)}")
     let stubS (xs : List Atom) :=
       ",".intercalate (xs.map fun a => s!"{atomName a}:{sigName (Gen.stubSig a)}:{intentName (Gen.stubIntent a)}")
-    let docS := match docOrder md with
-      | some xs => "general|" ++ ",".intercalate (xs.map atomName)
+    let docS := match docSection md with
+      | some sec => secName sec ++ "|" ++ ",".intercalate ((docOrderOf md sec).map atomName)
       | none => "out-of-scope|"
     s!"call={refusalName (callRefusal md)}|{callS (callArgs md)};pinned=|{callS (callArgsPinned md)};" ++
-    s!"stub={stubRefusalName (stubRefusal md)}|{stubS (stubArgs md)};doc={docS}"
+    s!"stub={stubRefusalName (stubRefusal md)}|{stubS (stubArgs md)};doc={docS};" ++
+    s!"acc={if accRefuses md then "multipleCoarseArgs" else ""}|{",".intercalate ((accArgs md).map atomName)}"
 
 def main : IO Unit := run handle
